@@ -71,6 +71,19 @@ fn nlri_of(family: Family, i: u64) -> packet::Nlri {
     }
 }
 
+/// Route identity without the MPLS labels (a withdrawal may carry any label, RFC 8277 2.4).
+fn route_key(n: &packet::Nlri) -> String {
+    match n {
+        packet::Nlri::LabeledV4(l) => format!("L4 {:?}", l.prefix),
+        packet::Nlri::LabeledV6(l) => format!("L6 {:?}", l.prefix),
+        packet::Nlri::VpnV4(v) => format!("V4 {:?} {:?}", v.rd, v.prefix),
+        packet::Nlri::VpnV6(v) => format!("V6 {:?} {:?}", v.rd, v.prefix),
+        packet::Nlri::Evpn(packet::evpn::EvpnNlri::MacIpAdvertisement(m)) => format!("E2 {:?} {} {:?} {:?}", m.rd, m.etag, m.mac, m.ip),
+        packet::Nlri::Evpn(packet::evpn::EvpnNlri::EthernetIpPrefix(p)) => format!("E5 {:?} {} {:?}/{}", p.rd, p.etag, p.ip_prefix, p.prefix_len),
+        other => format!("{:?}", other),
+    }
+}
+
 fn nexthop_for(family: Family, k: u64) -> bgp::Nexthop {
     if family.afi() == Family::AFI_IP6 {
         bgp::Nexthop::V6(Ipv6Addr::new(0x2001, 0xdb8, 0xffff, 0, 0, 0, 0, 1 + k as u16 % 3))
@@ -256,7 +269,7 @@ async fn run(case: Json, tol: Tolerate) -> Outcome {
     // receiver 0), which makes the capability list of the OPENs several hundred bytes long
     let all: Vec<Family> = vec![
         Family::IPV4, Family::IPV6, Family::IPV4_MC, Family::IPV6_MC, Family::IPV4_MPLS, Family::IPV6_MPLS, Family::LS, Family::IPV4_MUP, Family::IPV6_MUP, Family::IPV4_VPN,
-        Family::IPV6_VPN, Family::IPV4_FLOWSPEC, Family::IPV6_FLOWSPEC, Family::IPV4_FLOWSPEC_VPN, Family::IPV6_FLOWSPEC_VPN, Family::IPV4_SRPOLICY, Family::IPV6_SRPOLICY, Family::L2VPN_EVPN, Family::RTC,
+        Family::IPV6_VPN, Family::IPV4_FLOWSPEC, Family::IPV6_FLOWSPEC, Family::IPV4_FLOWSPEC_VPN, Family::IPV6_FLOWSPEC_VPN, Family::IPV4_SRPOLICY, Family::IPV6_SRPOLICY, Family::L2VPN_EVPN,
     ];
     let topo_fams = if wide { all } else { fams.clone() };
     let mut t = Topo::new(&wcfg, nodes, topo_fams, hold).await;
@@ -265,6 +278,9 @@ async fn run(case: Json, tol: Tolerate) -> Outcome {
         if r.get("as2").map(|b| b.as_bool()).unwrap_or(false) {
             t.nodes[i + 1].spk.caps.retain(|c| !matches!(c, packet::Capability::FourOctetAsNumber(_)));
         }
+    }
+    for n in t.nodes.iter_mut() {
+        n.spk.nlri_key = route_key;
     }
     let pipes: Vec<PipeOpts> = rjs.iter().map(|r| pipe_opts_from_json(r.get("pipe").unwrap_or(&Json::Null))).collect();
     t.connect(0, &PipeOpts::default(), &PipeOpts::default()).await;
@@ -332,10 +348,15 @@ async fn run(case: Json, tol: Tolerate) -> Outcome {
         // bulks over a 300-byte window with latency take a while: wait until nothing has moved for
         // several rounds (virtual time is free)
         let mut idle = 0;
-        for _ in 0..2000 {
+        let mut last_bytes: u64 = t.nodes.iter().map(|x| x.spk.bytes_rx).sum();
+        for _ in 0..20000 {
             let n = t.settle().await;
             let busy = t.nodes.iter().any(|x| x.spk.conn.as_ref().is_some_and(|c| c.ctl().in_flight()));
-            if n == 0 && !busy {
+            // a frame larger than the window arrives in pieces: bytes moved = not idle
+            let bytes: u64 = t.nodes.iter().map(|x| x.spk.bytes_rx).sum();
+            let moved = bytes != last_bytes;
+            last_bytes = bytes;
+            if n == 0 && !busy && !moved {
                 idle += 1;
                 if idle >= 4 {
                     break;
@@ -375,10 +396,27 @@ async fn run(case: Json, tol: Tolerate) -> Outcome {
                         let cn = canon(&best.attr, true);
                         let mut size = attr_block_size(&cn) + 7 + 48;
                         if as2 {
-                            // two-octet AS_PATH (half the size) plus AS4_PATH (full size)
-                            size += cn.iter().find(|(c, _)| *c == packet::Attribute::AS_PATH).map(|(_, b)| b.len() / 2 + 4).unwrap_or(0);
+                            // the AS_PATH goes out with two-octet ASNs (about half the size); an AS4_PATH
+                            // of the original size is added only when some ASN needs four octets
+                            if let Some((_, b)) = cn.iter().find(|(c, _)| *c == packet::Attribute::AS_PATH) {
+                                let mut wide = false;
+                                let mut i = 0;
+                                while i + 2 <= b.len() {
+                                    let n = b[i + 1] as usize;
+                                    for k in 0..n {
+                                        if i + 2 + 4 * k + 2 <= b.len() && (b[i + 2 + 4 * k] != 0 || b[i + 3 + 4 * k] != 0) {
+                                            wide = true;
+                                        }
+                                    }
+                                    i += 2 + 4 * n;
+                                }
+                                size -= b.len() / 2 - 4;
+                                if wide {
+                                    size += b.len() + 4;
+                                }
+                            }
                         }
-                        expected.insert((fam_key(*f), format!("{:?}", c.net)), (cn, best.nexthop, size));
+                        expected.insert((fam_key(*f), route_key(&c.net)), (cn, best.nexthop, size));
                     }
                 }
             }
@@ -396,7 +434,7 @@ async fn run(case: Json, tol: Tolerate) -> Outcome {
                     continue;
                 };
                 if *size > max_len + 96 {
-                    fail!("frame/route-with-oversized-attributes-delivered", "op {} {}: receiver {} (max {}) holds {} whose attribute block needs about {} bytes", opi, op.to_compact(), r, max_len, mk.1, size);
+                    fail!("frame/route-with-oversized-attributes-delivered", "op {} {}: receiver {} (max {} as2={}) holds {} whose attribute block needs about {} bytes (per attribute {:?}); decoded sizes {:?}", opi, op.to_compact(), r, max_len, as2, mk.1, size, want.iter().map(|(c, b)| (*c, b.len())).collect::<Vec<_>>(), canon(attrs, true).iter().map(|(c, b)| (*c, b.len())).collect::<Vec<_>>());
                 }
                 let mut got = canon(attrs, true);
                 // AS4 reconciliation leaves no AS4_PATH behind
